@@ -115,6 +115,18 @@ func HandleRequest(data []byte, req Requester) error {
 	r := &Request{}
 	err := json.Unmarshal(data, r)
 	if err != nil {
+		// A request with a valid id but a wrongly typed member is still
+		// a request; answer it instead of dropping it silently.
+		if _, ok := err.(*json.UnmarshalTypeError); ok {
+			var idr struct {
+				ID *uint64 `json:"id"`
+			}
+			if json.Unmarshal(data, &idr) == nil && idr.ID != nil {
+				r.ID = idr.ID
+				req.Reply(r.ErrorResponse(reserr.ErrInvalidRequest))
+				return nil
+			}
+		}
 		return err
 	}
 
